@@ -5,24 +5,69 @@ import json, os, subprocess
 HOOK_COMMITS = ["4812ca0"]
 
 CHECKS = {
- "C01": dict(tech="differential runtime monitor: real Unmarshal+Resolve+Validate vs. an independent executable reference model (exact rationals) on seeded grouped schema x boundary-instance workloads",
-             text="Exploration: 40k (quick) / 1M (thorough) generated 2020-12 schema documents x 16 instances, each verdict compared with an independent reference evaluator that replays the official suite; evidence lists per-keyword decisive counts and the same-group keyword pair table. Right level because validity is a relation over an infinite product space; a monitor with a strong oracle over interaction-dense workloads is what this family offers.",
-             note="Trusts the reference model (self-tested on 2,012 official suite cases, audited against python jsonschema), the generators' domain guards (float64-exact numbers, dyadic multipleOf with small quotients, RE2-subset patterns). Known finding KF-C01-1 pinned.", ref="5 C01"),
+ "C01": dict(tech="differential runtime monitor: real Unmarshal+Resolve+Validate vs. an independent executable reference model (exact rationals) over seeded interaction-dense schema x boundary-instance workloads",
+   text="Exploration: 40k (quick) / 1.2M (thorough) generated 2020-12 schema documents x 16 instances, every verdict compared with an independent reference evaluator that replays the official suite; evidence lists per-keyword decisive counts and the same-group keyword-pair table. Validity is a relation over an infinite product space; a monitor with a strong oracle over interaction-dense workloads is the level this family offers.",
+   note="Trusts the reference model (self-tested on 2,012 official suite cases, cross-checked against python jsonschema on ~96k random pairs) and the generators' domain guards (float64-exact numbers, dyadic multipleOf with small quotients, RE2-subset patterns). Known finding KF-C01-1 pinned.", ref="5 C01"),
+ "C02": dict(tech="differential runtime monitor against the reference model in draft-07 mode, with loaded documents and a configuration sweep of the root's $schema (constant oracle: error)",
+   text="Exploration: draft-07 documents (either $schema spelling), draft-07 roots reaching Loader documents from depth 0-3, and 40 unsupported $schema values; non-triviality is measured as 'the 2020-12 reading of the same input differs'.",
+   note="Remote documents never declare another supported draft than the root; keywords of the other draft are not mixed in.", ref="5 C02"),
+ "C03": dict(tech="marker technique + reference-model resolver over generated reference universes; offline checker over the recorded Loader request history",
+   text="Exploration: root + 0-3 loader documents with embedded resources, decoy anchors, every reference form, fault classes (dangling reference, loader error, no loader); verdict vectors over unique markers identify the node each $ref reached; loader history checked for repeated requests.",
+   note="Guards: loader serves retrieval URI and canonical id; cross-document references address document roots plus fragment; urn bases use fragment/absolute references only.", ref="5 C03, App. B"),
+ "C04": dict(tech="second-system oracle: whatever encoding/json emits for a value of T must validate against Resolve(ForType(T)); types from a committed corpus and reflect-built at run time",
+   text="Exploration over programs (types) and inputs (values): 50k/1.5M types x 5 value classes (zero, min, max, random x2) incl. extremes of every sized integer, nil pointers/slices, omitted omitempty fields, embeddings.",
+   note="Domain exclusions per the property (nil maps, []byte, ',string', unregistered marshalers, nil embedded pointers); KF-C04-1..3 pinned and their classes not generated.", ref="5 C04"),
  "C05": dict(tech="metamorphic runtime monitor: Marshal/Unmarshal/Marshal fixpoint, parallel reflection walk for keyword preservation, behavioural equivalence of both sides on instance pools",
-             text="Exploration over random Schema values (reflection-populated, every field in every mode) and generated documents of both drafts; byte/JSON fixpoint, keyword presence and verdict equivalence are checked per case.",
-             note="K3/K4 classes (empty-but-present enum/anyOf/oneOf, nil DependencyStrings value) are pinned known findings and excluded from generation.", ref="5 C05"),
+   text="Exploration over random Schema values (reflection-populated, every field in every mode) and generated documents of both drafts; byte/JSON fixpoint, keyword presence and verdict equivalence are checked per case.",
+   note="K3/K4 classes (empty-but-present enum/anyOf/oneOf, nil DependencyStrings value) are pinned known findings KF-C05-1/2 and excluded from generation.", ref="5 C05"),
+ "C06": dict(tech="marker technique + reference-model dynamic-scope walk over generated dynamic-scope topologies; call histories on one Resolved compared with the stateless model",
+   text="Exploration: 1-5 resources with dynamic/plain/no anchor, entered in random order through $ref/$dynamicRef/applicator hops, final $dynamicRef in fragment, resource and pointer form; 30-call histories per Resolved. Non-triviality: a wrong rule (innermost-first, lexical) would pick another candidate.",
+   note="Loader documents are referenced as whole documents plus fragment.", ref="5 C06"),
+ "C07": dict(tech="differential runtime monitor with exhaustive small instance pools: dedicated unevaluated* schema generator vs. reference model with first-class annotations",
+   text="Exploration of schemas, exhaustive over instances: all 81 objects over a 4-name pool or all 31 arrays up to length 4 per schema; decisive cases counted by deleting unevaluated* and re-evaluating in the model.",
+   note="Two mutants are known to be equivalent (annotation collector passed into not; merge aliasing) and are not expected to fire.", ref="5 C07"),
  "C08": dict(tech="metamorphic runtime monitor: verdict on the canonical encoding/json decoding vs. verdicts on random exact Go representations of the same JSON value",
-             text="Exploration: generated schemas (both drafts) and representation-sensitive focused schemas x instances x 8 exact Go representations each (all numeric kinds, json.Number spellings, named types, typed containers, named key types, pointers).",
-             note="Representations are built by the harness and self-checked to denote the same value via its own canonical form; nil slices/maps/structs/[]byte are outside the domain.", ref="5 C08"),
+   text="Exploration: generated and representation-focused schemas x instances x 8 exact Go representations each (all numeric kinds, json.Number spellings, named types, typed containers, named key types, pointers).",
+   note="Representations are self-checked to denote the same value via the harness's canonical form; nil slices/maps/structs/[]byte are outside the domain.", ref="5 C08"),
+ "C09": dict(tech="decoder-as-oracle plus mutation classes with expectation by construction: single-point text mutants of valid encodings, typed by a parallel walk of reflect.Type and document",
+   text="Exploration over types and documents: every drop-key / undeclared-key / type-swap / integer-bound / null / array-length mutant of valid encodings; accepted => must decode with DisallowUnknownFields; listed classes must be rejected.",
+   note="Documents are mutated as text (never through float64); integers stay within the field's 64-bit type; floats below 1e30.", ref="5 C09"),
+ "C10": dict(tech="process-level runtime monitor: recover(), logical step budget via the verif hook, memory cap, watchdog, call record logged before every call; hostile byte/struct/type/universe workloads in child processes",
+   text="Exploration of hostile inputs with fault detection at process level: panics (recovered, with library frame), fatal errors (child death, isolated re-run), unbounded recursion (step budget / memory cap) are violations; only inputs inside the property's proviso are decided.",
+   note="Step budget 100,000 hook events per call; in-place reference cycles, cyclic values for Marshal/Clone/Equal, non-JSON instance kinds are executed but not decided.", ref="5 C10"),
  "C11": dict(tech="runtime monitor with an independently computed canonical form as oracle over all ordered pairs of related values in mixed Go representations",
-             text="Exploration: groups of 8 related JSON values (equal by construction / near misses) x 2 representations, all ordered pairs compared with canonical-form equality; reflexivity and symmetry fall out of the pair matrix.",
-             note="Canonical form (internal/canon) is the definition of JSON value equality used; numbers as exact rationals.", ref="5 C11"),
+   text="Exploration: groups of 8 related JSON values (equal by construction / near misses) x 2 representations, all ordered pairs compared with canonical-form equality; reflexivity and symmetry fall out of the pair matrix.",
+   note="Canonical form (internal/canon) is the definition of JSON value equality used; numbers as exact rationals.", ref="5 C11"),
  "C12": dict(tech="runtime monitor: enum/const/uniqueItems verdicts vs. the pairwise canonical-form definition, repeated under fresh per-call hash seeds and in two processes; hash law checked through the verif hook",
-             text="Exploration: arrays with planted equal-but-not-identical duplicates, enum/const lists as documents and as Schema structs holding arbitrary representations; 8 repetitions per array and a second process; Equal=>same hash checked on equal-by-construction pairs.",
-             note="Needs the VerifHashValue hook for the hash law; otherwise verdict-only.", ref="5 C12"),
+   text="Exploration: arrays with planted equal-but-not-identical duplicates, enum/const lists as documents and as Schema structs holding arbitrary representations; 8 repetitions per array and a second process; Equal=>same hash on equal-by-construction pairs.",
+   note="Needs the VerifHashValue hook for the hash law; otherwise verdict-only.", ref="5 C12"),
+ "C13": dict(tech="Go race detector over cold-start concurrent workloads in fresh processes with hook-injected yields, plus sequential-equivalence comparison of every concurrent result",
+   text="Exploration over schedules: 96 (quick) / 2,400 (thorough) fresh race-instrumented processes, k in {2,4,8,16} goroutines over one shared Resolved, shared Schema tree, shared ForOptions and the two process-wide caches; evidence reports overlap inside Validate, cache-miss windows, yields, report blocks.",
+   note="The race detector sees only executed interleavings; operations are pure so linearizability degenerates to per-call equality with the sequential result (porcupine not needed).", ref="5 C13"),
+ "C14": dict(tech="snapshot monitors (deep value + pointer-graph dump before/after) and digest comparison across repetitions and across fresh processes",
+   text="Exploration over histories and configurations: Resolve x3, Validate x7 per instance, Marshal x3, Resolve again; schema tree and instances snapshotted around every phase; the case list is re-executed in 3/6 processes and digests must agree.",
+   note="Loader documents are not snapshotted (the Loader owns them); ApplyDefaults excluded (mutates by contract).", ref="5 C14"),
+ "C15": dict(tech="runtime monitor with a recursive justification checker over observed (before, after, schema) triples, idempotence by re-application, and the reference model for ValidateDefaults",
+   text="Exploration: schemas with defaults at depth 0-3 x instances in random Go representations (typed maps, named keys); laws L1-L4 decided per application, L5 (ValidateDefaults) against the model per schema.",
+   note="Laws other than 'present values untouched' are decided only when ApplyDefaults returned nil; null defaults are only paired with any-typed containers; Go arrays are not used as map element types.", ref="5 C15"),
+ "C16": dict(tech="metamorphic + structural runtime monitor: repeat-call equality (also across processes), pointer-set disjointness, parallel walk of reflect.Type and schema, encoding/json observed on a fully populated value for key set and order",
+   text="Exploration over types x options x the JSONSCHEMAGODEBUG setting: determinism, isolation (also after mutating a result), Resolve acceptance, property set/order, required set, null-ness, bounds, TypeSchemas substitution, errors for recursive and unsupported types, pruning with IgnoreInvalidTypes.",
+   note="KF-C16-1 pinned; embedded overrides are only checked for the documented 'type object + properties' behaviour.", ref="5 C16"),
+ "C17": dict(tech="oracle by construction + marker technique: the harness builds the document around a known location and its own RFC 6901 / fragment encoder; invalid pointers derived from valid ones",
+   text="Exploration: 150k/4M locations over every subschema-bearing field (found by reflection) x hostile key strings x indices, nested to depth 5; 14 classes of invalid pointers must make Resolve fail.",
+   note="No model involved; siblings and ancestors are built so that their verdict vectors differ from the selected leaf's.", ref="5 C17"),
+ "C18": dict(tech="metamorphic runtime monitor: verdicts of a schema vs. 5 decorated variants (non-asserting keywords, unknown keywords, case variants of standard keywords) on the same instances",
+   text="Exploration: both drafts; decorations chosen to bite if they asserted; the reference model's trace is used only to count decorations that sat on the evaluation path.",
+   note="Well-typed values for known non-asserting keywords; keywords of the other supported draft are not used as unknown keywords.", ref="5 C18"),
+ "C19": dict(tech="runtime monitor: repeated Marshal (in-process and across fresh processes) + token-level key-order extraction compared with the order rule computed from the Schema value",
+   text="Exploration: Schema trees with 0-8 properties on 3 levels, PropertyOrder permutations/subsets/supersets/duplicates; byte equality across 8 repetitions and 2-4 processes; duplicates must be rejected.",
+   note="Key order read from encoding/json's token stream.", ref="5 C19"),
+ "C20": dict(tech="structural runtime monitor: pointer-set disjointness by the harness's own reflection, byte equality, library tree check as second observer, two-way overwrite sweep with deep snapshots",
+   text="Exploration: trees populating all 23 subschema-bearing fields (found by reflection; inconclusive if one is never populated) to depth 4; every field of every node of one tree overwritten, the other tree's snapshot must not change.",
+   note="Slices/maps of non-schema values are shared by contract and never written through.", ref="5 C20"),
 }
 
-PENDING = ["C02","C03","C04","C06","C07","C09","C10","C13","C14","C15","C16","C17","C18","C19","C20"]
+PENDING = []
 
 def main():
     checks = []
@@ -52,7 +97,7 @@ def main():
         },
         "engines": [
             {"name": "vcheck", "path": "harness/cmd/vcheck", "serves_properties": sorted(CHECKS), "kind_free_text": "Go driver/worker harness: seeded workloads run in child processes linking the freshly built library; monitors (reference model, canonical form, metamorphic relations, race detector) decide every observed call"},
-            {"name": "refmodel", "path": "harness/internal/refmodel", "serves_properties": ["C01","C02","C03","C06","C07","C15","C17","C18"], "kind_free_text": "independent JSON Schema reference evaluator (2020-12 + draft-07) used as executable specification"},
+            {"name": "refmodel", "path": "harness/internal/refmodel", "serves_properties": ["C01","C02","C03","C06","C07","C10","C15","C18"], "kind_free_text": "independent JSON Schema reference evaluator (2020-12 + draft-07) used as executable specification"},
         ],
         "checks": checks,
         "not_applicable": na,
